@@ -125,3 +125,63 @@ def far_programs(rng, th):
             g.add("add_hart_info")
     far.append(dict(g.program(), observe_every=170, full_limit=1 << 22))
     return far
+
+
+HDR0 = {"oem_id": [1, 2, 3, 4, 5, 6], "oem_table_id": [1, 2, 3, 4, 5, 6, 7, 8], "oem_rev": [9, 0, 0, 0], "timebase": [0] * 8}
+
+
+def refusal_programs(rng):
+    """Histories with a refused operation in the middle (oversize entry, out-of-range index, duplicate IMSIC, second log
+    area, bad PCI address): the caller may catch the refusal and go on; the table must then be as if it had not happened."""
+    src = schema.Rand(rng)
+    out = []
+
+    def T(kind, ops, **ctor):
+        out.append({"fam": "table", "kind": kind, "ctor": dict(HDR0, **ctor), "ops": ops, "full_limit": 1 << 22})
+
+    cache = {"op": "add_cache", "a": {}, "calls": [{"o": "size", "a": {"v": src.scalar(4)}}]}
+    proc = lambda parent, k: {"op": "add_processor", "a": {"parent": parent, "id": src.scalar(4)}, "calls": [{"o": "add_cache", "a": {"ref": 1}}] * k}
+    T("PPTT", [cache, proc(0, 2), proc(2, 59), cache, proc(2, 3), proc(5, 100), cache, proc(5, 1)])
+    isa = lambda n: {"op": "add_isa_string", "a": {"str": [114] * n}, "calls": []}
+    cmo = {"op": "add_cmo", "a": {"cbom": [6], "cbop": [6], "cboz": [6]}, "calls": []}
+    hart = lambda i, c, k: {"op": "add_hart_info", "a": {"uid": src.scalar(4), "isa": i}, "calls": [{"o": "with_cmo", "a": {"ref": c}}] * k}
+    T("RHCT", [isa(5), cmo, isa(65530), isa(6), hart(1, 2, 16380), cmo, hart(4, 6, 2), isa(7), hart(8, 2, 1)])
+    wire = {"num": [1, 0, 0, 0], "level": True, "high": False, "aplic": [2, 0]}
+    io = lambda n: {"op": "add_iommu", "a": {"id": [n % 256, 0], "wires": [wire] * n}, "calls": []}
+    mp = lambda r: {"src": [1, 0, 0, 0], "dst": [2, 0, 0, 0], "n": [3, 0, 0, 0], "iommu": r, "ats": True, "pri": False, "rciep": False}
+    rc = lambda r, m: {"op": "add_pcie_root_complex", "a": {"id": [2, 0], "seg": [0, 0], "ats": False, "pri": True, "maps": [mp(r)] * m}, "calls": []}
+    plat = lambda r, n: {"op": "add_platform", "a": {"id": [3, 0], "name": [80] * n, "maps": [mp(r)]}, "calls": []}
+    T("RIMT", [io(2), io(8188), io(3), rc(3, 2), rc(1, 3276), io(1), plat(1, 70000), rc(6, 1), plat(6, 5)])
+    chbs = {"op": "add_host_bridge", "a": {"uid": src.scalar(4), "version": "Cxl2", "base": src.scalar(8)}, "calls": []}
+    cxims = lambda n: {"op": "add_xor_interleave_math", "a": {"gran": "Granularity1kb"}, "calls": [{"o": "add_xormap", "a": {"v": src.scalar(8)}}] * n}
+    cfm = lambda ways, n: {"op": "add_fixed_memory", "a": {"base": src.scalar(8), "size": src.scalar(8), "arith": "Modulo", "gran": "Granularity256b", "ways": ways, "qtg": [1, 0]},
+                           "calls": [{"o": "add_target", "a": {"v": src.raw(4)}}] * n}
+    rdpas = lambda dev: {"op": "add_port_association", "a": {"seg": [1, 0], "bus": [2], "dev": [dev], "fn": [1], "proto": "CxlIo", "base": src.scalar(8)}, "calls": []}
+    T("CEDT", [chbs, cxims(2), cxims(256), chbs, cfm("Ways2", 2), cfm("Ways4", 3), cfm("Ways1", 2), cxims(1), rdpas(32), rdpas(3), cfm("Ways3", 3)])
+    msci = lambda n: {"op": "add_memory_side_cache", "a": {"pxm": src.scalar(4), "size": src.scalar(8), "total": "Two", "this": "One", "assoc": "Complex", "policy": "Writeback", "line": [64, 0]},
+                      "calls": [{"o": "add_smbios_handle", "a": {"v": [i % 256, i // 256 % 256]}} for i in range(n)]}
+    mpda = {"op": "add_memory_proximity", "a": {"init": src.scalar(4), "mem": src.scalar(4)}, "calls": []}
+    sll = lambda calls: {"op": "add_system_locality", "a": {"loc": "Memory", "dtype": "ReadLatency", "mts": "Size64b", "base_unit": src.scalar(8), "ni": 2, "nt": 3}, "calls": calls}
+    sv = lambda i, j: {"o": "set_entry_value", "a": {"i": i, "j": j, "v": src.scalar(2)}}
+    T("HMAT", [mpda, msci(3), msci(65536), mpda, sll([sv(1, 2)]), sll([sv(1, 2), sv(2, 0)]), sll([sv(0, 3)]), sll([sv(1, 1), {"o": "set_target_value", "a": {"idx": 3, "v": [1, 0, 0, 0]}}]), msci(1), sll([sv(0, 0)])])
+    reg = {"space": "SystemMemory", "width": [64], "offset": [0], "access": "QwordAccess", "addr": [0] * 8}
+    res = {"rtype": "Cache", "flags": [0, 0], "id": {"t": "cache", "cache_id": [1, 0, 0, 0]}}
+    qos = lambda n: {"op": "add_controller", "a": {"type": "Capacity", "reg": reg, "rcid": src.scalar(4), "mcid": src.scalar(4), "flags": src.scalar(2)}, "calls": [{"o": "add_resource", "a": {"v": res}}] * n}
+    T("RQSC", [qos(1), qos(3276), qos(2), qos(4000), qos(0)])
+    im = {"op": "add_imsic", "a": {"s_ids": [1, 0], "g_ids": [1, 0], "guest_bits": [1], "hart_bits": [1], "group_bits": [1], "group_shift": [1]}, "calls": []}
+    gicr = {"op": "add_gicr", "a": {"base": src.scalar(8), "length": src.scalar(4)}, "calls": []}
+    T("MADT", [gicr, im, gicr, im, gicr, im], lic="Riscv")
+    T("TPM2", [{"op": "set_log_area", "a": {"min_len": src.scalar(4), "base": src.scalar(8)}}, {"op": "set_log_area", "a": {"min_len": src.scalar(4), "base": src.scalar(8)}}],
+      **{"class": "Server", "base": src.scalar(8), "start": "Mmio"})
+    sd = lambda a, b, v: {"op": "set_distance", "a": {"a": a, "b": b, "v": [v]}}
+    T("SLIT", [sd(0, 1, 20), sd(4, 0, 33), sd(1, 2, 21), sd(0, 4, 34), sd(5, 0, 35), sd(3, 3, 36), sd(2, 7, 37), sd(1, 0, 22), sd(4, 4, 38), sd(3, 2, 23)], n=4)
+    pci = lambda dev, fn: {"seg": [1, 0], "bus": [2], "dev": [dev], "fn": [fn]}
+    gi = lambda dev, fn: {"op": "add_generic_initiator", "a": {"pxm": src.scalar(4), "handle": dict(pci(dev, fn), t="pci")}, "calls": [{"o": "enabled", "a": {}}]}
+    T("SRAT", [gi(1, 1), gi(32, 0), gi(2, 2), gi(0, 8), gi(3, 3)])
+    vp = lambda dev: {"op": "add_virtio_pci_iommu", "a": {"pci": pci(dev, 0)}, "calls": []}
+    T("VIOT", [vp(1), vp(40), vp(2), {"op": "add_mmio_endpoint", "a": {"ep": [1, 0, 0, 0], "base": src.scalar(8), "ref": 3}, "calls": []}])
+    aer = lambda dev: {"op": "add_aer_device", "a": {"ctor": "port", "ff": "Enabled", "pci": {"bus": [2], "dev": [dev], "fn": [1]}}, "calls": []}
+    T("HEST", [aer(1), aer(33), aer(2)])
+    T("TCPA_SERVER", [{"op": "pci_sbdf", "a": {"seg": [1], "bus": [2], "dev": [40], "fn": [1]}}, {"op": "active_low", "a": {}}, {"op": "pci_sbdf", "a": {"seg": [1], "bus": [2], "dev": [4], "fn": [9]}},
+                      {"op": "pci_sbdf", "a": {"seg": [1], "bus": [2], "dev": [4], "fn": [1]}}])
+    return out
